@@ -119,6 +119,10 @@ def run(ctx):
         ctx.sample({k: ln[k] for k in ("pt", "name", "tmc", "xc", "qc", "predicted", "cls", "etype", "finite")})
     bad = ctx.tlc_validate_sharded("Trace_C16", "Trace.cfg", [{k: v for k, v in ln.items() if k != "msg"} for ln in lines])
     byoid = {ln["oid"]: (o, ln) for o, ln in zip(todo, lines)}
+    good = [{k: v for k, v in ln.items() if k != "msg"} for ln in lines if ln["oid"] not in bad and ln["cls"] == "OK"]
+    ctx.selftest("Trace_C16", "Trace.cfg", good, [("finite", lambda l: dict(l, finite=False)),
+                                                   ("class", lambda l: dict(l, cls="Crash", etype="KeyError")),
+                                                   ("predicted", lambda l: dict(l, predicted="Reject:tmc"))])
     for oid, clause in bad.items():
         o, ln = byoid[oid]
         pt = o["pt"]
